@@ -27,7 +27,11 @@ import (
 
 // ---- C08: compile determinism ---------------------------------------------------------------------------------
 
-var c08Files = Files{"x.d2": "p: {q}\np -> r: imported\n*.style.opacity: 0.6\n", "y.d2": "...@x\nz: 1\n"}
+var c08Files = Files{"x.d2": "p: {q}\np -> r: imported\n*.style.opacity: 0.6\n", "y.d2": "...@x\nz: 1\n",
+	// one imported file seen from importers with different variables: substitutions in plain values, in quoted strings
+	// and inside block strings are resolved in the importer's context
+	// (one file per kind: the parser represents them differently)
+	"t.d2": "m: |md hello ${who}, welcome |\n", "t2.d2": "n: ${who}\nn -> o: ${who}\n", "t3.d2": "o: \"to ${who}\"\n"}
 
 var c08Progs = []string{
 	"a -> b: hello\nb -> c\nc.shape: circle\n",
@@ -42,6 +46,9 @@ var c08Progs = []string{
 	"a -> b; a -> b; a -> b\n(a -> b)[1]: mid\n(a -> b)[0]: null\nx: null\na.style.opacity: 0.3\na.style.opacity: null\nA.label: upper\n",
 	"a: |md # title\n  text |\nb: |go x := 1|\nc: |latex \\\\frac{1}{2}|\nd.icon: https://icons.terrastruct.com/x.svg\ne.link: https://example.com\ne.tooltip: tip\n",
 	"bad: {shape: nothing}\na.style.opacity: 7\n(q -> r)[3]: x\n...@missing\n",
+	"vars: {who: alice}\n...@t\n...@t2\n...@t3\n",
+	"vars: {who: bob}\n...@t\n...@t2\n...@t3\nn.shape: circle\n",
+	"vars: {who: carol}\nc: @t\nd: {vars: {who: dave}; ...@t; ...@t3}\ne: @t2\n",
 }
 
 func c08Result(i int) string {
@@ -107,15 +114,68 @@ func parseIdx(in string) []int {
 	return out
 }
 
-func c08Seq(in string) eng.Res {
+// c08Hist runs one history and returns the position of the first compilation that differs from its fresh-process
+// reference (-1 = none).
+func c08Hist(idx []int) int {
 	refs := loadRefs("C08")
-	idx := parseIdx(in)
 	for pos, i := range idx {
-		got := hashOf(c08Result(i))
-		if got != refs[i] {
-			return eng.Bad("compile-result-depends-on-earlier-compilations-in-the-process", fmt.Sprintf("history %v: compilation #%d (program %d) differs from the same program compiled in a fresh process", idx, pos, i))
+		if hashOf(c08Result(i)) != refs[i] {
+			return pos
 		}
 	}
+	return -1
+}
+
+// selfContained turns a history that failed inside a long-lived worker (whose earlier evaluations may have left state
+// behind) into a history that fails when run alone in a fresh process: the history itself, or the history after one
+// more program. cmd is the Internal sub-command that runs a history and prints the failing position.
+func selfContained(cmd, in string, nprogs int) (string, bool) {
+	// one confirmed witness per worker and oracle is enough (each confirmation costs up to nprogs+1 processes); later
+	// failures of the worker carry it as their witness and name their own history in the detail
+	if h, ok := selfContainedCache[cmd]; ok {
+		return h, h != ""
+	}
+	h, ok := selfContainedSearch(cmd, in, nprogs)
+	selfContainedCache[cmd] = h
+	return h, ok
+}
+
+var selfContainedCache = map[string]string{}
+
+func selfContainedSearch(cmd, in string, nprogs int) (string, bool) {
+	self, _ := os.Executable()
+	fails := func(h string) bool {
+		b, err := exec.Command(self, cmd, h).Output()
+		return err == nil && strings.TrimSpace(string(b)) != "-1" && strings.TrimSpace(string(b)) != ""
+	}
+	if fails(in) {
+		return in, true
+	}
+	for p := 0; p < nprogs; p++ {
+		if h := strconv.Itoa(p) + "," + in; fails(h) {
+			return h, true
+		}
+	}
+	return "", false
+}
+
+func c08Seq(in string) eng.Res {
+	idx := parseIdx(in)
+	if pos := c08Hist(idx); pos >= 0 {
+		r := eng.Bad("compile-result-depends-on-earlier-compilations-in-the-process", fmt.Sprintf("history %v: compilation #%d (program %d) differs from the same program compiled in a fresh process", idx, pos, idx[pos]))
+		if os.Getenv("VERIF_NO_SELFCONTAINED") == "" {
+			if h, ok := selfContained("c08-hist", in, len(c08Progs)); ok {
+				r.Fail.Witness = h
+				if h != in {
+					r.Fail.Detail += fmt.Sprintf("\n(first seen in a worker that had evaluated other histories before; reproduced alone in a fresh process as history [%s])", h)
+				}
+			} else {
+				r.Fail.Detail += "\n(seen in a worker that had evaluated other histories before; neither this history nor this history after one more program reproduces it in a fresh process: the state was left by a longer sequence of earlier compilations)"
+			}
+		}
+		return r
+	}
+	refs := loadRefs("C08")
 	return eng.OK(in[len(in)-1:]+refs[idx[len(idx)-1]], true)
 }
 
@@ -245,17 +305,36 @@ func c25RenderWith(i int, ruler *textmeasure.Ruler) string {
 	return string(svg)
 }
 
+func c25Hist(idx []int) int {
+	refs := loadRefs("C25")
+	for pos, i := range idx {
+		if hashOf(c25Render(i)) != refs[i] {
+			return pos
+		}
+	}
+	return -1
+}
+
 func c25Seq(in string) eng.Res {
 	refs := loadRefs("C25")
 	idx := parseIdx(in)
-	for pos, i := range idx {
-		got := hashOf(c25Render(i))
+	for _, i := range idx {
 		if strings.HasPrefix(refs[i], "FRESH") {
 			return eng.Bad("harness-error", refs[i])
 		}
-		if got != refs[i] {
-			return eng.Bad("svg-depends-on-earlier-renders-in-the-process", fmt.Sprintf("history %v: render #%d (diagram %d, %s, sketch=%v) is not byte-identical to the same diagram rendered in a fresh process", idx, pos, i, c25Progs[i].Engine, c25Progs[i].Sketch))
+	}
+	if pos := c25Hist(idx); pos >= 0 {
+		i := idx[pos]
+		r := eng.Bad("svg-depends-on-earlier-renders-in-the-process", fmt.Sprintf("history %v: render #%d (diagram %d, %s, sketch=%v) is not byte-identical to the same diagram rendered in a fresh process", idx, pos, i, c25Progs[i].Engine, c25Progs[i].Sketch))
+		if h, ok := selfContained("c25-hist", in, len(c25Progs)); ok {
+			r.Fail.Witness = h
+			if h != in {
+				r.Fail.Detail += fmt.Sprintf("\n(first seen in a worker that had evaluated other histories before; reproduced alone in a fresh process as history [%s])", h)
+			}
+		} else {
+			r.Fail.Detail += "\n(seen in a worker that had evaluated other histories before; neither this history nor this history after one more diagram reproduces it in a fresh process)"
 		}
+		return r
 	}
 	// second in-process repetition of the last one
 	last := idx[len(idx)-1]
@@ -303,6 +382,13 @@ func init() {
 		i, _ := strconv.Atoi(args[0])
 		fmt.Println(hashOf(c08Result(i)))
 	}
+	eng.Internal["c08-hist"] = func(args []string) {
+		os.Setenv("VERIF_NO_SELFCONTAINED", "1")
+		fmt.Println(c08Hist(parseIdx(args[0])))
+	}
+	eng.Internal["c25-hist"] = func(args []string) {
+		fmt.Println(c25Hist(parseIdx(args[0])))
+	}
 	eng.Internal["c25-ref"] = func(args []string) {
 		i, _ := strconv.Atoi(args[0])
 		fmt.Println(hashOf(c25Render(i)))
@@ -317,7 +403,7 @@ func init() {
 	eng.Register(&eng.Check{
 		ID: "C08", Level: "model_checking",
 		Pre: func() { WriteCorpusCache(); freshRefs("C08", "c08-ref", len(c08Progs)) },
-		Rule: "histories: every sequence of ≤3 compilations over 12 structurally different programs (connections, globs, vars, imports, all board kinds, classes, sql_table/class, sequence diagram, grid/near, nulls and indexes, block strings/icons/links, an erroneous program) in one process; every compilation of the history is compared (canonical diagram incl. object/connection order, or the error list) with the same program compiled in a fresh process. inputs: every program of ≤2 statements over the 260-statement core alphabet and the corpus compiled twice. schedules: the per-run source scan of the compile closure (21 packages) lists every package-level variable written outside init; when that list is empty, threads compiling different programs share no mutable state, so all interleavings are equivalent to a sequential history (covered above); all pairs and triples are additionally compiled concurrently on real threads. states = histories, transitions = compilations",
+		Rule: "histories: every sequence of ≤3 compilations over 15 structurally different programs (three of them import one file from contexts with different variables; connections, globs, vars, imports, all board kinds, classes, sql_table/class, sequence diagram, grid/near, nulls and indexes, block strings/icons/links, an erroneous program) in one process; every compilation of the history is compared (canonical diagram incl. object/connection order, or the error list) with the same program compiled in a fresh process. inputs: every program of ≤2 statements over the 260-statement core alphabet and the corpus compiled twice. schedules: the per-run source scan of the compile closure (21 packages) lists every package-level variable written outside init; when that list is empty, threads compiling different programs share no mutable state, so all interleavings are equivalent to a sequential history (covered above); all pairs and triples are additionally compiled concurrently on real threads. states = histories, transitions = compilations",
 		Assumptions: []string{"the schedule quantifier is reduced to sequential histories by independence: the scan found no package-level state written by the compile path (evidence key mutable_package_state); pointer-reachable shared state passed in by the caller (FS) is read-only", "varying GOMAXPROCS and separate OS processes are covered only by the fresh-process reference and the free-running concurrent pass"},
 		Oracles: map[string]eng.Oracle{"history": c08Seq, "concurrent": c08Concurrent, "twice": c08Twice},
 		Run: func(w *eng.W) {
